@@ -46,7 +46,10 @@ class NearestBetterClustering:
         truncation_factor: float | None = 1.0,
         use_correction: bool | None = False,
     ) -> None:
-        sorted_individuals = sorted(evaluated_individuals, reverse=True)
+        # Individuals of equal fitness are put in the order of their genomes first (the sort by fitness is stable),
+        # so that the best one and the truncated part do not depend on the order of the input.
+        by_genome = sorted(evaluated_individuals, key=lambda ind: tuple(np.ravel(ind.genome).tolist()))
+        sorted_individuals = sorted(by_genome, reverse=True)
         self.individuals = sorted_individuals[: int(len(sorted_individuals) * truncation_factor)]
         self.tree = Tree()
         self.distance_factor = distance_factor
